@@ -70,6 +70,7 @@ def gen_cases(rng, tier):
             rows = [[str(j), 'u', '1.5'] for j in range(n_)] + [['oops', 'v', '2']] + [['7', 'u', '0.25']]
             cases.append({'kind': 'cast_schema', 'rows': rows, 'policy': pol, 'limit': n_})
     cases += gen_select_cases(rng, max(16, n // 4))
+    cases += gen_live_cases()
     for i in range(max(16, n // 3)):
         # schema casting with the schema inferred from the file itself (all rows are inside the inference sample): no row
         # can be offending, text cells keep their text (stripped when asked), whatever the padding of the cells
@@ -122,6 +123,58 @@ def gen_select_cases(rng, n):
     return cases
 
 
+LIVE_FLOWS = ['plain', 'duplicate', 'duplicate_end', 'join_keep', 'join_delete', 'concat', 'dump', 'delete', 'sort']
+
+
+def live_links(which, d):
+    """a flow whose datastream is handed, live, to load((descriptor, resources)): some of its steps need each resource to
+    be read before the next one is taken (duplicate stores the rows it copies, join indexes its source, concatenate
+    chains the selected resources), so a selector that skips a resource must not leave it unread"""
+    links = [[{'k': i, 'v': 'x%d' % i} for i in range(3)], [{'k': i % 3, 'w': i} for i in range(5)], [{'b': 100 + i} for i in range(4)]]
+    extra = {'plain': [], 'duplicate': [DF.duplicate('res_1')], 'duplicate_end': [DF.duplicate('res_1', duplicate_to_end=True)],
+             'join_keep': [DF.join('res_1', ['k'], 'res_2', ['k'], {'v': {}}, source_delete=False)],
+             'join_delete': [DF.join('res_1', ['k'], 'res_2', ['k'], {'v': {}})],
+             'concat': [DF.concatenate({'k': []}, target={'name': 'merged'}, resources=['res_1', 'res_2'])],
+             'dump': [DF.dump_to_path(d)], 'delete': [DF.delete_resource('res_2')], 'sort': [DF.sort_rows('{k}', resources=['res_1', 'res_2'])]}[which]
+    return links + extra
+
+
+def gen_live_cases():
+    cases = []
+    for which in LIVE_FLOWS:
+        for sel in ([-1], [0], [1], [-1, 0], 'last_two'):
+            cases.append({'kind': 'livepair', 'flow': which, 'sel': sel})
+    return cases
+
+
+def run_livepair(case):
+    import shutil
+    d = os.path.join(scratch(), 'lp_%s' % digest(case))
+    try:
+        with quiet():
+            ref_rows, ref_dp, _ = Flow(*live_links(case['flow'], d)).results()
+        names = [r.name for r in ref_dp.resources]
+        if case['sel'] == 'last_two':
+            sel = names[-2:]
+        else:
+            sel = [names[i] for i in case['sel'] if -len(names) <= i < len(names)]
+        sel = [n for n in names if n in sel]
+        shutil.rmtree(d, ignore_errors=True)
+        try:
+            with quiet():
+                ds = Flow(*live_links(case['flow'], d)).datastream()
+                rows, dp, _ = Flow(Load((ds.dp.descriptor, ds.res_iter), resources=sel)).results()
+        except Exception as e:
+            c = e
+            while type(c).__name__ == 'ProcessorError' and getattr(c, 'cause', None) is not None:
+                c = c.cause
+            return {'error': 1, 'exc': '%s: %s' % (type(c).__name__, str(c)[:200]), 'sel': sel, 'all': names}
+        return {'sel': sel, 'all': names, 'nrows': [len(x) for x in ref_rows], 'names': [r.name for r in dp.resources],
+                'rows': [rows_enc(x) for x in rows], 'ref': [rows_enc(ref_rows[names.index(n)]) for n in sel]}
+    finally:
+        shutil.rmtree(d, ignore_errors=True)
+
+
 def witnesses():
     return [{'kind': 'headers', 'headers': ['a', 'a', 'a (1)'], 'cs': True, 'fmt': [' (', ')'], 'witness_of': 'C13.dedup_headers_collision'}]
 
@@ -162,6 +215,8 @@ def run_impl(case):
     k = case['kind']
     if k == 'pkgselect':
         return run_pkgselect(case)
+    if k == 'livepair':
+        return run_livepair(case)
     if k == 'headers':
         return {'headers': Load.rename_duplicate_headers(list(case['headers']), case_sensitive=case['cs'],
                                                          deduplicate_format=case['fmt'][0] + '%s' + case['fmt'][1])}
@@ -257,6 +312,17 @@ def true_parse(text):
 
 def oracle(case, out):
     k = case['kind']
+    if k == 'livepair':
+        what = 'load((descriptor, resources), resources=%r) over the live stream of a flow with %s' % (out.get('sel'), case['flow'])
+        if 'error' in out:
+            return '%s failed: %s' % (what, out['exc'])
+        if out['names'] != out['sel']:
+            return '%s selected %r' % (what, out['names'])
+        for nm, got, ref in zip(out['names'], out['rows'], out['ref']):
+            if got != ref:
+                return '%s: resource %r came back with %d rows %r, read in turn it has %d rows %r' % (
+                    what, nm, len(got), rows_dec(got)[:2], len(ref), rows_dec(ref)[:2])
+        return None
     if k == 'pkgselect':
         import re as _re
         names, (form, sel) = case['names'], case['sel']
@@ -437,6 +503,13 @@ def finding(case, out, failure):
 
 def coq_term(case, out):
     k = case['kind']
+    if k == 'livepair':
+        if 'error' in out:
+            return None
+        pairs = clist([cpair(cstr(nm), cnat(nr)) for nm, nr in zip(out['all'], out['nrows'])])
+        got = clist([cpair(cstr(nm), cnat(len(r))) for nm, r in zip(out['names'], out['rows'])])
+        return ('list_eqb (fun a b => str_eqb (fst a) (fst b) && Nat.eqb (snd a) (snd b)) '
+                '(select_pairs (fun n => str_in n %s) (fun x => x) %s) %s' % (cstrs(out['sel']), pairs, got))
     if k == 'pkgselect':
         if 'error' in out:
             return None
